@@ -4,8 +4,8 @@ C15 driver. Requests (floats as 16 hex digits, matrices `[x,y;x,y;…]`):
         -> `ok 0110…` | `err <name>`
   pipcall <atol> <polyWidth> <polygon> <ptsWidth> <points> <insideLen | -1> <insideIsInt32 0|1>
         the whole call with its shape / dtype guards (pairs = first two columns) -> as pipf
-  pipq  <atol> <polygon> <points>                    the same inputs converted exactly to Rat:
-        -> `ok <model> <evenOdd> <evenOddLeft> <evenOddLe>` (four 0/1 strings) | `err <name>`
+  pipq  <atol> <polygon> <points> <dx> <dy>          the same inputs converted exactly to Rat, (dx, dy) an integer ray direction:
+        -> `ok <model> <evenOdd> <evenOddLeft> <evenOddLe> <evenOddDir (dx,dy)>` (five 0/1 strings) | `err <name>`
   cells <nrows> <ncols> <xll> <yll> <csz> <atolDefault> <polygon>   Float model of Grid.cells_inside_polygon
         -> `ok [cells] [x:y:cell,…]` (cell list and returned table) | `err <name>`
   centres <nrows> <ncols> <xll> <yll> <csz>          Float cell centres -> `[x,y;…]`
@@ -58,16 +58,17 @@ def handle (toks : List String) : String :=
       | .ok l => "ok " ++ bits l
       | .error e => "err " ++ errName e
     | _, _, _, _, _, _ => "bad-op"
-  | ["pipq", atol, poly, pts] =>
-    match floatTok? atol, (parseFloatMat? poly).bind pairs?, (parseFloatMat? pts).bind pairs? with
-    | some atol, some poly, some pts =>
+  | ["pipq", atol, poly, pts, dx, dy] =>
+    match floatTok? atol, (parseFloatMat? poly).bind pairs?, (parseFloatMat? pts).bind pairs?, dx.toInt?, dy.toInt? with
+    | some atol, some poly, some pts, some dx, some dy =>
       let a := ratOfFloat atol
       let pq := toQ poly
       let tq := toQ pts
+      let d : Rat × Rat := ((dx : Rat), (dy : Rat))
       match pointsInsidePolygon a tq pq none with
-      | .ok l => s!"ok {bits l} {bits (tq.map (evenOdd pq))} {bits (tq.map (evenOddLeft pq))} {bits (tq.map (evenOddLe pq))}"
+      | .ok l => s!"ok {bits l} {bits (tq.map (evenOdd pq))} {bits (tq.map (evenOddLeft pq))} {bits (tq.map (evenOddLe pq))} {bits (tq.map (evenOddDir d pq))}"
       | .error e => "err " ++ errName e
-    | _, _, _ => "bad-op"
+    | _, _, _, _, _ => "bad-op"
   | ["cells", nrows, ncols, xll, yll, csz, atol, poly] =>
     match nrows.toNat?, ncols.toNat?, floatTok? xll, floatTok? yll, floatTok? csz, floatTok? atol,
         (parseFloatMat? poly).bind pairs? with
